@@ -25,6 +25,14 @@ CLAIMS = {
         note="A1-A4; VALID incl. date-dependent Mietstufen, <= 24 children per recipient, retirement not before 18; rounding=True; facts on aggregation/grouping/time nodes come from the kernel contracts (C11-C13); geburtsdatum/alter_monate (datetime) are assumed contracts; division by a data-dependent zero is C16's obligation (numpy yields inf, not an exception)",
         ref="7 C08",
     ),
+    "C09": dict(
+        engine=E1,
+        level="translation_validation",
+        technique="contract-based translation validation: E1 (AST->z3) summaries of the original rule and of the AST produced by the real _make_vectorizable_ast under numpy contracts, z3 searches an argument vector on which they differ; schematic shape lemmas with opaque placeholders; frame contract of make_vectorizable",
+        text="All 382 internal scalar policy functions (every validity period) and 47 schematic shapes of the documented style are validated for all argument values: equal meaning, or the rewrite / the array form fails loudly. 26 disagreements exist on the unchanged tree (augmented assignment under if, mixed return/assignment branches, 1-argument reductions over per-row values); each is replayed on the real array form and listed as an open known finding because test_vectorization.py pins those translations.",
+        note="A1, A2, A4; numpy.where/logical_*/maximum/minimum contracts trusted; one date class per rule (the first in which it returns); lifting shapes to all programs of the style is a paper argument; datetime rules and array rules excluded (listed)",
+        ref="7 C09",
+    ),
     "C10": dict(
         engine=E1,
         level="proof",
@@ -103,7 +111,7 @@ man = {
     },
     "engines": ENGINES + ENGINES_EXTRA,
     "checks": [],
-    "notes": "Contract-based deductive verification with self-generated verification conditions (no Python verifier exists in the sandbox). See DESIGN.md. fix: commits in /repo: be15bcc (C03 dtype), 27f9d05 (C10/C07 rounding offset), 9be6802 and 4b2a097 (C08), 1d11443 (C12/C01 fg_id step-children).",
+    "notes": "Contract-based deductive verification with self-generated verification conditions (no Python verifier exists in the sandbox). See DESIGN.md. fix: commits in /repo: be15bcc (C03 dtype), 27f9d05 (C10/C07 rounding offset), 9be6802 and 4b2a097 (C08), 1d11443 (C12/C01 fg_id step-children), c6dddf1 (C09/C14 make_vectorizable).",
     "not_applicable": [],
 }
 for p in props:
